@@ -131,7 +131,8 @@ def translate():
          r"if let Err\(e\) = ctx\.finalize\(\) \{ errors\.extend\(e\); \} \(Some\(ctx\), errors\)$", loop_, "pass loop tail")
     np = norm(between(cg, r"fn next_pass\(&mut self\) \{", r"\n    \}", "next_pass"))
     # (`self.analysis.clear();` concerns the language-server analysis only, which the assembler model does not carry)
-    if np.replace(" self.analysis.clear();", "") != ("self.pass_idx += 1; self.next_macro_scope_id = 0; self.changed.clear(); self.segments.values_mut().for_each(|s| s.reset()); "
+    # C06 (loop iteration budget): `self.loop_iterations = 0;` is bookkeeping of the `.loop` limit
+    if np.replace(" self.analysis.clear();", "").replace(" self.loop_iterations = 0;", "") != ("self.pass_idx += 1; self.next_macro_scope_id = 0; self.changed.clear(); self.segments.values_mut().for_each(|s| s.reset()); "
               "self.test_elements.clear(); self.source_map.clear();"):
         raise ShapeError("next_pass changed: %s" % np)
     ap = norm(between(cg, r"fn register_all_segment_symbols\(&mut self\) -> CoreResult<\(\)> \{", r"\n    \}", "register_all_segment_symbols"))
@@ -176,12 +177,17 @@ def translate():
 
     # ---- loop, macro, align, data, pc
     lp = norm(between(cg, r"Token::Loop \{", r"Token::MacroDefinition \{", "loop arm"))
-    m = need(r"if let Some\(loop_count\) = self\.evaluate_expression_as_i64\(expr, true\)\? \{ for index in (\d+)\.\.loop_count \{ "
+    # C06: optional budget check (`loop_count > MAX_LOOP_ITERATIONS - self.loop_iterations` -> error) before the iteration
+    m = need(r"if let Some\(loop_count\) = self\.evaluate_expression_as_i64\(expr, true\)\? \{ "
+             r"(?:if loop_count > MAX_LOOP_ITERATIONS - self\.loop_iterations \{ return Err\(Diagnostic::error\(\)[^;]*; \} "
+             r"self\.loop_iterations \+= loop_count\.max\(0\); )?for index in (\d+)\.\.loop_count \{ "
              r"let iteration_scope = Identifier::new\(format!\(\"\{\}_\{\}\", loop_scope, index\)\); "
              r"self\.with_scope\(&iteration_scope, Some\(block\), \|s\| \{ s\.add_symbol\( \"index\", s\.symbol\(expr\.span, index, SymbolType::Constant\), \)\?; "
              r"s\.emit_tokens\(&block\.inner\) \}\)\?; \} \}", lp, "loop arm (one scope per iteration, `index` an ordinary constant of it)")
     out["loop_first_index"] = int(m.group(1))
-    if "remove_symbol" in cg or "symbols.remove" in cg:
+    # symbols are only ever removed by the greedy analysis of code that is not assembled (41281c3, language server only)
+    cg_wo = re.sub(r"fn analyse_unassembled\(&mut self, tokens: &\[Token\]\) -> CoreResult<\(\)> \{.*?\n    \}\n", "", cg, flags=re.S)
+    if "remove_symbol" in cg_wo or "symbols.remove" in cg_wo:
         raise ShapeError("codegen removes symbols again (the model has no removal)")
     mi = norm(between(cg, r"Token::MacroInvocation \{ id: name, args, \.\. \} => \{", r"Token::ProgramCounterDefinition \{", "macro invocation arm"))
     # e323987: the counter advances for every invocation, before the macro is looked up
@@ -215,7 +221,7 @@ def translate():
     iff = norm(between(cg, r"Token::If \{\s*value, if_, else_, \.\.\s*\} => \{", r"Token::Import \{", "if arm"))
     need(r"^if let Some\(value\) = self\.evaluate_expression_as_i64\(value, true\)\? \{ let emit_if = value != 0; "
          r"if emit_if \{ self\.emit_tokens\(&if_\.inner\)\?; \} else if self\.options\.enable_greedy_analysis \{ "
-         r"self\.with_dummy_segment\(\|s\| s\.emit_tokens\(&if_\.inner\)\)\?; \} "
+         r"(?:self\.with_dummy_segment\(\|s\| s\.emit_tokens\(&if_\.inner\)\)|self\.analyse_unassembled\(&if_\.inner\))\?; \} "
          r"if let Some\(e\) = else_ \{ if !emit_if \{ self\.emit_tokens\(&e\.inner\)\?; \}", iff, "if arm")
 
     # ---- `.segment "x" { .. }`: the previous segment is selected again whether or not the block reported an error
@@ -234,11 +240,17 @@ def translate():
          r"Err\(\(\)\) => \{ self\.emit\(full_span, &\[0\]\)\?; return Err\(", ins, "instruction arm: emission")
     need(r"\} else \{ self\.emit\(full_span, &\[\]\)\?; \} \}$", ins, "instruction arm: unresolved operand emits nothing")
 
+    # ---- limits the model does not follow beyond (C06): a loop count above the per-pass budget, nesting deeper than the limit
+    m = re.search(r"const MAX_LOOP_ITERATIONS: i64 = (0x[0-9a-fA-F]+|\d+);", cg)
+    out["loop_iteration_limit"] = int(m.group(1), 0) if m else 2 ** 62
+    m = re.search(r"const MAX_NESTING_DEPTH: usize = (\d+);", cg)
+    out["nesting_depth_limit"] = int(m.group(1)) if m else 2 ** 30
+
     lines = ["(* GENERATED by translate/t_codegen.py from mos-core/src/codegen/{mod,segment}.rs. DO NOT EDIT. *)",
              "From Coq Require Import List NArith ZArith.", "Import ListNotations.", "Open Scope Z_scope.",
              "Definition too_far_emits : list N := [%s]%%N." % "; ".join(str(x) for x in too_far)]
     for k in ["segment_default_initial_pc", "segment_default_target_address", "emit_start_limit", "emit_end_limit", "default_pc",
-              "loop_first_index", "align_padding_cap", "max_iterations"]:
+              "loop_first_index", "align_padding_cap", "max_iterations", "loop_iteration_limit", "nesting_depth_limit"]:
         lines.append("Definition %s : Z := %d." % (k, out[k]))
     for k in ["segment_default_write", "stop_needs_no_new_symbols", "unknown_needs_nonempty"]:
         lines.append("Definition %s : bool := %s." % (k, out[k]))
